@@ -6,7 +6,7 @@ set_option linter.unusedVariables false
 namespace EupsModel.Record
 
 macro "canon_simp" "[" facts:Lean.Parser.Tactic.simpLemma,* "]" : tactic =>
-  `(tactic| simp [declaredProd, DirPl.at, TabPl.at, canonInfo, tableName, absP, Path.rel, Path.subpath, Path.under,
+  `(tactic| simp [declaredProd, DirPl.at, TabPl.at, canonInfo, canonDir, canonTab, tableName, absP, Path.rel, Path.subpath, Path.under,
         isPrefixOf_append_self, PVal.truthy, addFlavorPaths, trimInfo, orderNew, trimKey, PInfo.getK, PInfo.setK,
         PVal.asPath, Path.join, Path.dirname, Path.basename, Except.map, $facts,*])
 
@@ -118,7 +118,7 @@ theorem canon_spec (ex : Path → Bool) (root : List Str) (name version flavor :
       canon_simp [hsr, hex, sNone]
 
 macro "resolve_simp" "[" facts:Lean.Parser.Tactic.simpLemma,* "]" : tactic =>
-  `(tactic| simp [resolveInfo, resolvePaths, Prod.init, canonInfo, DirPl.at, TabPl.at, tableName, absP, Path.rel,
+  `(tactic| simp [resolveInfo, resolvePaths, Prod.init, canonInfo, canonDir, canonTab, DirPl.at, TabPl.at, tableName, absP, Path.rel,
         PVal.truthy, PVal.isReal, Path.join, Except.map, $facts,*])
 
 theorem resolve_spec (ex' : Path → Bool) (root root' : List Str) (name version flavor : Str) (d : DirPl) (t : TabPl)
@@ -283,5 +283,107 @@ theorem resolve_spec (ex' : Path → Bool) (root root' : List Str) (name version
       resolve_simp [hsr, hnn, hmt, hmi, e2, e3, d3, hex]
     | none =>
       resolve_simp [hsr, hnn]
+
+/-! ## Other flavors of a version file -/
+
+theorem dget_dset_other {β : Type} (l : List (Str × β)) (k k' : Str) (v : β) (h : k' ≠ k) :
+    dget (dset l k v) k' = dget l k' := by
+  induction l with
+  | nil =>
+    have : ¬ k = k' := fun e => h e.symm
+    simp [dset, dget, this]
+  | cons x r ih =>
+    obtain ⟨a, b⟩ := x
+    by_cases ha : a = k
+    · subst ha
+      have : ¬ a = k' := fun e => h e.symm
+      simp [dset, dget, this]
+    · by_cases hb : a = k'
+      · subst hb
+        simp [dset, dget, ha]
+      · simp [dset, dget, ha, hb, ih]
+
+theorem dget_map {β : Type} (l : List (Str × β)) (g : Str → β → β) (k : Str) :
+    dget (l.map fun (f, i) => (f, g f i)) k = (dget l k).map (g k) := by
+  induction l with
+  | nil => simp [dget]
+  | cons x r ih =>
+    obtain ⟨a, b⟩ := x
+    by_cases ha : a = k
+    · subst ha; simp [dget]
+    · simp [dget, ha, ih]
+
+theorem canon_db (p c : Prod) (h : canonicalizePaths p = .ok c) : c.db = p.db := by
+  unfold canonicalizePaths at h
+  simp only at h
+  split at h
+  · cases h
+  · cases h; rfl
+
+theorem declarePaths_db (ex : Path → Bool) (p : Prod) (old : Option PInfo) (c : Prod) (pi : PInfo)
+    (h : declarePaths ex p old = .ok (c, pi)) : c.db = p.db := by
+  unfold declarePaths at h
+  cases hc : canonicalizePaths p with
+  | error e => simp [hc] at h
+  | ok c0 =>
+    simp only [hc] at h
+    split at h
+    · cases h
+    · split at h
+      · cases h
+      · cases h; exact canon_db p _ hc
+
+/-- no path-valued entry of the block is an existing absolute path below `td` (what the trimming loop of
+`VersionFile.write` would rewrite) -/
+def TrimStable (ex : Path → Bool) (td : Path) (i : Info) : Prop :=
+  ∀ k v, i.paths.getK k = some (.path v) → (v.abs && ex v) = true → v.under td = none
+
+theorem trimKey_stable (ex : Path → Bool) (td : Option Path) (pi : PInfo) (k : PKey)
+    (h : ∀ t, td = some t → ∀ v, pi.getK k = some (.path v) → (v.abs && ex v) = true → v.under t = none) :
+    trimKey ex td pi k = pi := by
+  unfold trimKey
+  split
+  · rename_i v t hk
+    split
+    · rename_i hv
+      rw [h t rfl v hk hv]
+    · rfl
+  · rfl
+
+theorem withTrim_self (i : Info) : i.withTrim i.paths = i := by
+  simp [Info.withTrim, Info.paths]
+
+theorem trimInfo_stable (ex : Path → Bool) (td : Option Path) (i : Info)
+    (h : ∀ t, td = some t → TrimStable ex t i) : trimInfo ex td orderFile i.paths = i.paths := by
+  have hk : ∀ k, trimKey ex td i.paths k = i.paths := fun k =>
+    trimKey_stable ex td i.paths k (fun t ht v hv hex => h t ht k v hv hex)
+  simp [trimInfo, orderFile, hk]
+
+/-- redeclaring one flavor leaves every other flavor's block exactly as it was, provided that block holds no
+existing absolute path below the stack root (true of every block eups itself wrote for the listed placements:
+inside paths are relative, outside paths are not below the root) -/
+theorem other_flavors_untouched (ex : Path → Bool) (who now : Str) (vr vr' : VRec) (p : Prod)
+    (h : declareRec ex who now vr p = .ok vr') (f' : Str) (hf : f' ≠ p.flavor) (i : Info)
+    (hi : dget vr.flavors f' = some i) (hs : TrimStable ex (stackRoot p.db) i) :
+    dget vr'.flavors f' = some i := by
+  unfold declareRec at h
+  simp only at h
+  cases hd : declarePaths ex p (Option.map Info.paths (dget vr.flavors p.flavor)) with
+  | error e => simp [hd] at h
+  | ok cp =>
+    obtain ⟨c, pi⟩ := cp
+    simp only [hd] at h
+    cases h
+    simp only
+    rw [dget_dset_other _ _ _ _ hf]
+    have hdb := declarePaths_db ex p _ c pi hd
+    rw [dget_map vr.flavors (fun f i => if f = p.flavor then i else
+      i.withTrim (trimInfo ex (if ex (stackRoot c.db) = true then some (stackRoot c.db) else none) orderFile i.paths)) f']
+    simp only [hi, Option.map_some, hf, if_false]
+    rw [trimInfo_stable ex _ i, withTrim_self]
+    intro t ht
+    split at ht
+    · cases ht; rw [hdb]; exact hs
+    · cases ht
 
 end EupsModel.Record
